@@ -40,6 +40,8 @@ EXPRESSIONS = [
     "Type.varint == 5", "Type.varint > r.n", "Type.string == 'abc'", "'ab' in Type.string", "Type.varint <= 5", "Type.varint >= 5", "Type.varint != 5", "Type.uint16 == 80", "net.ipaddress('1.2.3.4') == r.ip", "string('x') == r.s", "varint(5) == r.n",
     "str(path('/a/b')) == '/a/b'", "uint16(80) == r.port", "filesize(5) > 1", "uri('http://h/p') == 'http://h/p'", "net.ipnetwork('10.0.0.0/8') == r.net", "wstring('x') == r.s", "uint32(80) == r.port", "boolean(1) == r.flag",
     "True", "False", "None", "1", "0", "'x'", "''", "[]", "[0]", "()", "1 == 1", "1 < 2 < 3", "3 > 2 > 2",
+    # the text of a literal is taken as it is written: runs of blanks, tabs, line breaks and no-break spaces inside quotes belong to the value
+    "r.s == 'a  b'", "'  ' in r.s", "r.s == 'a\tb'", "r.s   ==   'a b'", "r.s == '''a\nb'''", "r.s == 'a\xa0b'", "r.s in ['x  y', ' z ']",
 ]
 REJECTED = ["lambda: 1", "{1: 2}", "{1, 2}", "r.n if r.m else 1", "r.sl[0] == 'a'", "f'{r.n}'", "[x for x in r.sl]", "{x for x in r.sl}", "(y := 1)", "r.n - 1", "r.n // 2", "r.n ** 2", "r.n << 1", "r.n >> 1", "r.n ^ 1", "-r.n", "+r.n", "~r.n", "*r.sl", "r.n.__class__"]
 
